@@ -334,6 +334,26 @@ def rule_inplace_input_dtype(ctx, rid, quals):
         # `v.astype(X.dtype)`): for an integer signal the envelope / noise / component is truncated to whole numbers
         c2 = 'computed arrays are not cast to the dtype of an input array'
         bad = None
+
+        def input_dtype(a):
+            """the argument whose dtype the expression `a` denotes (X.dtype, np.asarray(X).dtype, np.result_type(*X)), or None"""
+            if isinstance(a, ast.IfExp):
+                return input_dtype(a.body) or input_dtype(a.orelse)
+            if isinstance(a, ast.Attribute) and a.attr == 'dtype':
+                for x in ast.walk(a.value):
+                    if isinstance(x, ast.Name) and (x.id in formals or x.id in carriers):
+                        return x.id
+            if isinstance(a, ast.Call) and isinstance(a.func, ast.Attribute) and a.func.attr in ('result_type', 'promote_types', 'common_type'):
+                for x in ast.walk(a):
+                    if isinstance(x, ast.Name) and (x.id in formals or x.id in carriers):
+                        return x.id
+            return None
+        dtype_vars = {}
+        for node in walk_local(fi.node):
+            if isinstance(node, ast.Assign) and len(node.targets) == 1 and isinstance(node.targets[0], ast.Name):
+                src_ = input_dtype(node.value)
+                if src_ is not None:
+                    dtype_vars[node.targets[0].id] = src_
         for node in walk_local(fi.node):
             if not isinstance(node, ast.Call):
                 continue
@@ -341,10 +361,10 @@ def rule_inplace_input_dtype(ctx, rid, quals):
             if isinstance(node.func, ast.Attribute) and node.func.attr == 'astype' and node.args:
                 cand.append(node.args[0])
             for a in cand:
-                if isinstance(a, ast.Attribute) and a.attr == 'dtype' and isinstance(a.value, ast.Name) \
-                        and (a.value.id in formals or a.value.id in carriers):
-                    bad = (node, '`%s` casts a computed quantity to the dtype of %s: with an integer signal the values are '
-                           'truncated (and float32 input loses precision) without any error' % (unparse(node)[:60], a.value.id))
+                src_ = input_dtype(a) or (dtype_vars.get(a.id) if isinstance(a, ast.Name) else None)
+                if src_ is not None:
+                    bad = (node, '`%s` gives a computed quantity the dtype of %s: with integer input the values are '
+                           'truncated (and float32 input loses precision) without any error' % (unparse(node)[:60], src_))
         if bad:
             ctx.violation(rid, fi, c2, bad[1], node=bad[0])
         else:
